@@ -72,65 +72,48 @@ Definition was_normalised (t : tbl) (z a : Z) : bool :=
   (* abundances touched by the composition table are computed (R2); untouched ones are literal *)
   match abund_of t z a with Val p => negb (Qeq_bool p 0) | _ => false end.
 
-Definition check_case (t : tbl) (d : dens) (c : c06case) : bool :=
+(* per-observable verdicts of one case, with the observable's name *)
+Definition verdicts (t : tbl) (d : dens) (c : c06case) : list (string * bool) :=
   let '(z, a, obs) := c in
+  let g (i : nat) := nth i obs (PE OtherErr) in
   if Z.eqb a 0 then
-    match obs with
-    | [m; mu; rho; nd; dist] =>
-        chk_r0 m (mass_of t z 0) && chk_unc true mu (mass_unc_of t z 0)
-        && chk_r0 rho (density_of t d z 0)
-        && chk_r2 nd (number_density_of NA t d z)
-        && chk_cube dist (interatomic_cubed_of NA t d z)
-    | _ => false
-    end
+    if negb (Nat.eqb (length obs) 5) then [("shape"%string, false)] else
+    [("mass"%string, chk_r0 (g 0%nat) (mass_of t z 0));
+     ("_mass_unc"%string, chk_unc true (g 1%nat) (mass_unc_of t z 0));
+     ("density"%string, chk_r0 (g 2%nat) (density_of t d z 0));
+     ("number_density"%string, chk_r2 (g 3%nat) (number_density_of NA t d z));
+     ("interatomic_distance"%string, chk_cube (g 4%nat) (interatomic_cubed_of NA t d z))]
   else
-    match obs with
-    | [m; mu; ab; abu; rho; nd; dist] =>
-        chk_r0 m (mass_of t z a) && chk_unc true mu (mass_unc_of t z a)
-        && (if was_normalised t z a then chk_r2 ab (abund_of t z a) else chk_r0 ab (abund_of t z a))
-        && chk_unc false abu (abund_unc_of t z a)
-        && chk_r2 rho (density_of t d z a)
-        && chk_r2 nd (number_density_of NA t d z)
-        && chk_cube dist (interatomic_cubed_of NA t d z)
-    | _ => false
-    end.
+    if negb (Nat.eqb (length obs) 7) then [("shape"%string, false)] else
+    [("mass"%string, chk_r0 (g 0%nat) (mass_of t z a));
+     ("_mass_unc"%string, chk_unc true (g 1%nat) (mass_unc_of t z a));
+     ("abundance"%string, if was_normalised t z a then chk_r2 (g 2%nat) (abund_of t z a)
+                          else chk_r0 (g 2%nat) (abund_of t z a));
+     ("_abundance_unc"%string, chk_unc false (g 3%nat) (abund_unc_of t z a));
+     ("density"%string, chk_r2 (g 4%nat) (density_of t d z a));
+     ("number_density"%string, chk_r2 (g 5%nat) (number_density_of NA t d z));
+     ("interatomic_distance"%string, chk_cube (g 6%nat) (interatomic_cubed_of NA t d z))].
 
-Definition check_all (cases : list c06case) : list bool :=
-  match the_tbl, the_dens with
+Definition check_case (t : tbl) (d : dens) (c : c06case) : bool :=
+  forallb snd (verdicts t d c).
+
+Definition check_all_with (ot : option tbl) (od : option dens) (cases : list c06case) : list bool :=
+  match ot, od with
   | Some t, Some d => map (check_case t d) cases
   | _, _ => [false]
   end.
+Definition check_all := check_all_with the_tbl the_dens.
 
 (* number of nuclides the model loads, for the exhaustiveness cross-check *)
-Definition model_keys : N :=
-  match the_tbl with Some t => N.of_nat (PositiveMap.cardinal t) | None => 0%N end.
+Definition keys_of (ot : option tbl) : N :=
+  match ot with Some t => N.of_nat (PositiveMap.cardinal t) | None => 0%N end.
+Definition model_keys : N := keys_of the_tbl.
 
-(* names of the observables on which a case disagrees (diagnosis of a failing case) *)
 Definition diag_case (t : tbl) (d : dens) (c : c06case) : string :=
-  let '(z, a, obs) := c in
-  let tag (b : bool) (s : string) := if b then ""%string else (s ++ " ")%string in
-  if Z.eqb a 0 then
-    match obs with
-    | [m; mu; rho; nd; dist] =>
-        (tag (chk_r0 m (mass_of t z 0)) "mass" ++ tag (chk_unc true mu (mass_unc_of t z 0)) "_mass_unc"
-         ++ tag (chk_r0 rho (density_of t d z 0)) "density"
-         ++ tag (chk_r2 nd (number_density_of NA t d z)) "number_density"
-         ++ tag (chk_cube dist (interatomic_cubed_of NA t d z)) "interatomic_distance")%string
-    | _ => "shape"%string
-    end
-  else
-    match obs with
-    | [m; mu; ab; abu; rho; nd; dist] =>
-        (tag (chk_r0 m (mass_of t z a)) "mass" ++ tag (chk_unc true mu (mass_unc_of t z a)) "_mass_unc"
-         ++ tag (if was_normalised t z a then chk_r2 ab (abund_of t z a) else chk_r0 ab (abund_of t z a)) "abundance"
-         ++ tag (chk_unc false abu (abund_unc_of t z a)) "_abundance_unc"
-         ++ tag (chk_r2 rho (density_of t d z a)) "density"
-         ++ tag (chk_r2 nd (number_density_of NA t d z)) "number_density"
-         ++ tag (chk_cube dist (interatomic_cubed_of NA t d z)) "interatomic_distance")%string
-    | _ => "shape"%string
-    end.
-Definition diag_all (cases : list c06case) : list string :=
-  match the_tbl, the_dens with
+  String.concat " " (map fst (filter (fun p => negb (snd p)) (verdicts t d c))).
+Definition diag_all_with (ot : option tbl) (od : option dens) (cases : list c06case) : list string :=
+  match ot, od with
   | Some t, Some d => map (diag_case t d) cases
   | _, _ => ["model loader failed"%string]
   end.
+Definition diag_all := diag_all_with the_tbl the_dens.
